@@ -314,10 +314,9 @@ Theorem own_output_dispatch :
   (forall v, D_BYE v = true -> dispatches_to (enc_BYE v) TBYE) /\
   (forall v, D_APP v = true -> dispatches_to (enc_APP v) TAPP).
 Proof.
-  repeat split;
-    first [apply own_output_dispatch_PLI | apply own_output_dispatch_RRR | apply own_output_dispatch_NACK
-          | apply own_output_dispatch_FIR | apply own_output_dispatch_SR | apply own_output_dispatch_RR
-          | apply own_output_dispatch_SDES | apply own_output_dispatch_BYE | apply own_output_dispatch_APP].
+  exact (conj own_output_dispatch_PLI (conj own_output_dispatch_RRR (conj own_output_dispatch_NACK
+    (conj own_output_dispatch_FIR (conj own_output_dispatch_SR (conj own_output_dispatch_RR
+    (conj own_output_dispatch_SDES (conj own_output_dispatch_BYE own_output_dispatch_APP)))))))).
 Qed.
 
 (* SLI (F5): what the code emits (PT 205, FMT 2) does not come back to the SLI decoder: it dispatches to RawPacket;
